@@ -34,7 +34,7 @@ pub struct IndexEntry {
     pub kind: Kind,
 
     /// File modification time, in whole seconds past the Unix epoch.
-    #[serde(default)]
+    #[serde(default, deserialize_with = "deserialize_mtime")]
     pub mtime: i64,
 
     /// Discretionary Access Control permissions (such as read/write/execute on unix)
@@ -54,7 +54,7 @@ pub struct IndexEntry {
     /// It seems moderately common that the nanos are zero, probably because
     /// the time was set by something that didn't preserve them. In that case,
     /// skip serializing.
-    #[serde(default)]
+    #[serde(default, deserialize_with = "deserialize_mtime_nanos")]
     #[serde(skip_serializing_if = "crate::misc::zero_u32")]
     pub mtime_nanos: u32,
 
@@ -69,6 +69,32 @@ pub struct IndexEntry {
     pub target: Option<String>,
 }
 // GRCOV_EXCLUDE_STOP
+
+/// Times read from an index must be representable as a [Timestamp]: [IndexEntry::mtime]
+/// relies on it.
+fn deserialize_mtime<'de, D: serde::Deserializer<'de>>(deserializer: D) -> Result<i64, D::Error> {
+    let seconds = <i64 as serde::Deserialize>::deserialize(deserializer)?;
+    if Timestamp::new(seconds, 0).is_ok() && Timestamp::new(seconds, 999_999_999).is_ok() {
+        Ok(seconds)
+    } else {
+        Err(serde::de::Error::custom(format!(
+            "mtime {seconds} is out of range"
+        )))
+    }
+}
+
+fn deserialize_mtime_nanos<'de, D: serde::Deserializer<'de>>(
+    deserializer: D,
+) -> Result<u32, D::Error> {
+    let nanos = <u32 as serde::Deserialize>::deserialize(deserializer)?;
+    if nanos < 1_000_000_000 {
+        Ok(nanos)
+    } else {
+        Err(serde::de::Error::custom(format!(
+            "mtime_nanos {nanos} is out of range"
+        )))
+    }
+}
 
 impl EntryTrait for IndexEntry {
     /// Return apath relative to the top of the tree.
